@@ -61,6 +61,7 @@ type progGen struct {
 	ramOnly bool   // pointers only into writable plain memory (no ROM, no FEA0-FEFF, no IF)
 	cartRAM bool   // also point into the cartridge RAM window (free-running workloads only)
 	onlyOAM bool   // pointers only into FE00-FEFF (C17)
+	preAt   int    // offset at which the last preOp was emitted
 }
 
 func (g *progGen) pick(span int) uint16 {
@@ -89,8 +90,62 @@ func (g *progGen) pick(span int) uint16 {
 }
 
 func (g *progGen) emitPre() {
+	g.preAt = len(g.code)
 	g.code = append(g.code, g.preOp...)
 	g.preOp = nil
+}
+
+// opUsesStack: opcodes for which emitUnit re-points SP.
+func opUsesStack(op uint8) bool {
+	x, y, z := op>>6, (op>>3)&7, op&7
+	return op == 0xc9 || op == 0xd9 || (x == 3 && (z == 0 && y < 4 || z == 1 && y&1 == 0 || z == 4 && y < 4 || z == 5 || z == 7))
+}
+
+// pairPrev are the instructions emitPair places directly before the tested one: every
+// conditional and unconditional jump/call/return (whose early-finish state must not leak into
+// the next instruction), and a few ordinary ones.
+var pairPrev = []uint8{0x18, 0x20, 0x28, 0x30, 0x38, 0xc3, 0xc2, 0xca, 0xd2, 0xda, 0xcd, 0xc4, 0xcc, 0xd4, 0xdc, 0xc9, 0xc0, 0xc8, 0xd0, 0xd8,
+	0x00, 0x3c, 0x37, 0x3f, 0xaf, 0xf3}
+
+// emitPair emits `next` (with the pointer setup it needs) directly preceded by `prev`, with
+// nothing in between: a taken jump/call/return lands exactly on `next`. It returns false if
+// the combination is not supported (prev and next both need the stack).
+func (g *progGen) emitPair(prev uint8, next uint8, nextCB bool) bool {
+	isCall := prev == 0xcd || prev == 0xc4 || prev == 0xcc || prev == 0xd4 || prev == 0xdc
+	isRet := prev == 0xc9 || prev == 0xc0 || prev == 0xc8 || prev == 0xd0 || prev == 0xd8
+	isJP := prev == 0xc3 || prev == 0xc2 || prev == 0xca || prev == 0xd2 || prev == 0xda
+	if (isCall || isRet) && !nextCB && (opUsesStack(next) || next == 0x31 || next == 0xf9 || next == 0xe8 || next == 0x33 || next == 0x3b) {
+		return false
+	}
+	ph := -1
+	switch {
+	case isCall:
+		g.emitStackSetup()
+		g.preOp = []byte{prev, 0, 0}
+	case isRet:
+		g.emitStackSetup()
+		ph = len(g.code) + 1
+		g.emit16(0x11, 0) // LD DE,<address of next> (patched below)
+		g.emit(0xd5)      // PUSH DE
+		g.preOp = []byte{prev}
+	case isJP:
+		g.preOp = []byte{prev, 0, 0}
+	case prev == 0x18 || prev == 0x20 || prev == 0x28 || prev == 0x30 || prev == 0x38:
+		g.preOp = []byte{prev, 0}
+	default:
+		g.preOp = []byte{prev}
+	}
+	n := len(g.preOp)
+	off := g.emitUnit(next, nextCB, false)
+	tgt := g.base + uint16(off)
+	if isCall || isJP {
+		g.code[g.preAt+1], g.code[g.preAt+2] = byte(tgt), byte(tgt>>8)
+	}
+	if ph >= 0 {
+		g.code[ph], g.code[ph+1] = byte(tgt), byte(tgt>>8)
+	}
+	_ = n
+	return true
 }
 
 func (g *progGen) here() uint16   { return g.base + uint16(len(g.code)) }
